@@ -778,10 +778,18 @@ func captureRoot(fv *ssa.FreeVar) (param *ssa.Parameter, local *ssa.Alloc) {
 		}
 		par := c.Parent()
 		var binding ssa.Value
-		for _, b := range par.Blocks {
-			for _, in := range b.Instrs {
-				if mc, ok := in.(*ssa.MakeClosure); ok && mc.Fn == c && idx < len(mc.Bindings) {
-					binding = mc.Bindings[idx]
+		// In an inlined variant the closure is created by the inlined copy of its
+		// MakeClosure in another function of the package (its lexical parent is dead):
+		// prefer such a site.
+		if site := makeClosureSite(c); site != nil && idx < len(site.Bindings) {
+			binding = site.Bindings[idx]
+			par = site.Parent()
+		} else {
+			for _, b := range par.Blocks {
+				for _, in := range b.Instrs {
+					if mc, ok := in.(*ssa.MakeClosure); ok && mc.Fn == c && idx < len(mc.Bindings) {
+						binding = mc.Bindings[idx]
+					}
 				}
 			}
 		}
@@ -805,6 +813,32 @@ func captureRoot(fv *ssa.FreeVar) (param *ssa.Parameter, local *ssa.Alloc) {
 		}
 	}
 	return nil, nil
+}
+
+var closureSites = map[*ssa.Function]*ssa.MakeClosure{}
+var closureSitesDone = map[*ssa.Package]bool{}
+
+// makeClosureSite returns a MakeClosure creating c that lies outside c's lexical parent (an
+// inlined copy), or nil.
+func makeClosureSite(c *ssa.Function) *ssa.MakeClosure {
+	if c.Pkg == nil {
+		return nil
+	}
+	if !closureSitesDone[c.Pkg] {
+		closureSitesDone[c.Pkg] = true
+		for _, f := range SSAPkgFuncs(c.Prog, c.Pkg) {
+			for _, b := range f.Blocks {
+				for _, in := range b.Instrs {
+					if mc, ok := in.(*ssa.MakeClosure); ok {
+						if fn, ok := mc.Fn.(*ssa.Function); ok && fn.Parent() != nil && fn.Parent() != f {
+							closureSites[fn] = mc
+						}
+					}
+				}
+			}
+		}
+	}
+	return closureSites[c]
 }
 
 func freeVarOf(v ssa.Value) *ssa.FreeVar {
